@@ -452,7 +452,7 @@ def stream_hypotheses(X):
                         c.failing_input('pickle-truncation-not-survivable:' + res,
                                         'a cache entry cut after %d of %d bytes (%s payload, protocol %d) %s instead of raising an exception of the caught tuple %s'
                                         % (k, n, kind, proto, 'loads silently' if res == 'loaded' else 'raises ' + str(info), [k_.__name__ for k_ in caught]),
-                                        dict(stream='hypotheses', kind=kind, seed=seed, protocol=proto, k=k, n=n, result=res, info=repr(info)[:200]))
+                                        dict(stream='hypotheses', payload=kind, pseed=seed, protocol=proto, k=k, n=n, result=res, info=repr(info)[:200]))
                         break
                 c.case(('H2', kind, seed, proto), nontrivial=True)
                 # H1: a complete pickle followed by any tail loads the value
@@ -462,7 +462,7 @@ def stream_hypotheses(X):
                     if res != 'loaded' or canon(v) != want:
                         nbad += 1
                         c.failing_input('pickle-tail-not-ignored', 'a complete cache entry followed by a stale tail does not load the entry (%s, protocol %d): %s' % (kind, proto, res),
-                                        dict(stream='hypotheses', kind=kind, seed=seed, protocol=proto, tail=list(tail), result=res))
+                                        dict(stream='hypotheses', payload=kind, pseed=seed, protocol=proto, tail=list(tail), result=res))
                 c.count('H1:ok')
     c.obligation('hyp:H1-H2:real-pickle', nbad == 0, 'hypothesis', '%d load experiments on real files, caught tuple %s' % (npoints, [k.__name__ for k in caught]))
     # H0
@@ -545,7 +545,7 @@ def stream_truncation(X):
             write(path, D[:k])
             out, ncalls, log, trace = real_call(d, kind, seed)
             npts += 1
-            rep = dict(stream='truncation', kind=kind, seed=seed, k=k, n=n)
+            rep = dict(stream='truncation', payload=kind, pseed=seed, k=k, n=n)
             ok = check_completed(X, 'after-truncation', rep, out, ncalls, log, ref)
             if ok and (ncalls != 1 or read(path) != D or os.listdir(d) != ref['files']):
                 ok = False
@@ -658,7 +658,7 @@ def stream_function_histories(X):
         if a.startswith('bad-request'):
             raise Infra('C18 driver rejected a request: ' + rq[:200])
         mans = iter(a.split(';') if a else [])
-        rep = dict(stream='function-histories', kind=kind, seed=seed, init=init, events=evs, file0=list(file0), model=a[:2000])
+        rep = dict(stream='function-histories', payload=kind, pseed=seed, init=init, events=evs, file0=list(file0), model=a[:2000])
         good_init = init in ('empty', 'prefix', 'complete', 'tail', 'oldok')
         ok = True
         c.case((kind, seed, init, tuple(evs)), nontrivial=len(evs) > 1 or init != 'empty')
@@ -962,7 +962,9 @@ def stream_recursion(X):
         X.drop(d)
         reqs.append('rec|%d|%s|%s|%s|%s' % (length, caught_s, ';'.join(steps), ';'.join(dumps), ';'.join(mev)))
         reals.append((cls.__name__, spec, evs, real, specrun, vid, steps, Ds, obj))
+    c.log('recursion: real runs done, %d forks so far' % X.forks)
     ans = c.model(reqs)
+    c.log('recursion: model done')
     ndis = 0
     for (cname, spec, evs, real, specrun, vid, steps, Ds, obj), a, rq in zip(reals, ans, reqs):
         if a.startswith('bad-request'):
@@ -982,9 +984,7 @@ def stream_recursion(X):
                 if e[0] == 'take':
                     n = e[1]
                     want_items = specrun['items'][:n]
-                    want_fin = 'closed' if n <= len(specrun['items']) and not (n == len(specrun['items']) and False) else specrun['fin']
-                    if n > len(specrun['items']): want_fin = specrun['fin']
-                    else: want_fin = 'closed'
+                    want_fin = specrun['fin'] if n > len(specrun['items']) else 'closed'
                     if [x[0] for x in r['items']] != [x[0] for x in want_items] or r['fin'] != want_fin:
                         ok = False
                         c.failing_input('recursion-not-transparent', 'cached iteration yields %s items ending %r, the uncached iteration %s items ending %r (after a history of partial runs)'
@@ -1040,7 +1040,7 @@ def stream_recursion(X):
                 write(os.path.join(d, subs[0], '%04d' % i), D[:k])
                 r = real_iter(d, obj, 9)
                 npts += 1
-                want_res = [(canon([x[0] for x in specrun['items'][:i]][-cls.length:] if cls.length else []), i)]
+                want_res = [(('list',) + tuple([x[0] for x in specrun['items'][:i]][-cls.length:] if cls.length else []), i)]
                 rep = dict(stream='recursion-truncation', cls=cls.__name__, spec=spec, item=i, k=k)
                 c.case(('rtrunc', cls.__name__, i, k), nontrivial=True)
                 if r['items'] != specrun['items'] or r['fin'] != specrun['fin']:
@@ -1183,6 +1183,9 @@ def stream_concurrency(X):
 
         def handle(q, msg):
             nonlocal holder, viol
+            if msg == 'B' and holder is not None and holder != q.p and procs[holder].state == 'running':
+                # the holder was let go and may have released the lock already: its report can be behind this one
+                for q2, m2 in wait_msgs([procs[holder]], long_t): handle(q2, m2)
             log.append((q.p, msg))
             if msg in ('A', 'B', 'C', 'D'):
                 q.state = 'gate'; q.at = msg
@@ -1220,8 +1223,9 @@ def stream_concurrency(X):
                 raise Infra('concurrency: a child did not reach the first gate: %s' % log)
             for step in range(60):
                 live = [q for q in procs if q.state == 'gate']
-                if not live and not pending: break
-                if live:
+                running = [q for q in procs if q.state == 'running' and q.p not in pending]
+                if not live and not pending and not running: break
+                if live and not running:
                     q = c.rng.choice(live)
                     if c.rng.random() < .12:
                         at = q.at
@@ -1244,7 +1248,7 @@ def stream_concurrency(X):
                         if holder == q.p: holder = None
                     else:
                         at = q.at
-                        if at == 'A': pending.add(q.p); acts.append('s %d' % q.p)
+                        if at == 'A': pending.add(q.p)
                         if at == 'C': prev_file = read(path)
                         q.go()
                 expect_progress = any(q.state == 'running' and q.p not in pending for q in procs) or (pending and holder is None)
@@ -1259,7 +1263,7 @@ def stream_concurrency(X):
             for q in procs: q.close()
         final = read(path)
         results = {q.p: (q.state, q.result) for q in procs}
-        rep = dict(stream='concurrency', kind=kind, seed=seed, nprocs=np_, file0=list(file0), log=log, actions=acts, results=results)
+        rep = dict(stream='concurrency', payload=kind, pseed=seed, nprocs=np_, file0=list(file0), log=log, actions=acts, results=results)
         c.case(('conc', kind, seed, tuple(log)), nontrivial=True)
         c.count('conc:schedules'); c.count('conc:kills', sum(1 for _, m in log if str(m).startswith('KILL')))
         for q in procs:
@@ -1296,7 +1300,7 @@ def stream_concurrency(X):
         for q, mp in zip(procs, mprocs):
             if q.state == 'done':
                 nexec += int(q.result[1])
-                want = 'done %s' % ('exc 1 1 1' if rep['kind'] == 'raise' else 'ret 1 1 %d' % int(q.result[1]))
+                want = 'done %s' % ('exc 1 1 1' if rep['payload'] == 'raise' else 'ret 1 1 %d' % int(q.result[1]))
                 ok &= mp == want
             else:
                 ok &= mp == 'dead'
@@ -1389,13 +1393,15 @@ def run(c):
     X.caught_rec_classes = resolve_classes(names.get('rec', [])) or (EOFError, pickle.UnpicklingError, IndexError)
     c.extra['caught'] = names
     broken = c.build_and_audit()
+    c.log('built and audited')
 
+    only = os.environ.get('C18_ONLY')
     for st in (stream_hypotheses, stream_h3_processes, stream_truncation, stream_function_histories, stream_keys):
+        if only and st.__name__ not in only: continue
         st(X); c.log('done', st.__name__)
-    if os.environ.get('C18_ONLY_FN'): return
-    stream_recursion(X)
-    stream_concurrency(X)
-    stream_users(X)
+    for st in (stream_recursion, stream_concurrency, stream_users):
+        if only and st.__name__ not in only: continue
+        st(X); c.log('done', st.__name__)
 
     if not ok_extract:
         c.broken_no_input('extract:caught-tuples', 'could not locate the except clauses around pickle.load in cache.py: %s' % names, dict(names=names))
